@@ -146,6 +146,18 @@ func (e *env) runAudRound(ac *audCase) {
 						r.Count("audience_scoped_hits_inside_scope_v4", 1)
 					}
 					r.Distinct(fmt.Sprintf("aud-hit|%s|%v|%s", mk.Pre.Scope, a.CD, op.Route))
+					// the upstream OPT's shape must not matter: these answers
+					// were filed under their scope although other options stood
+					// in front of / behind the subnet option, or it came twice
+					if mk.OptBefore > 0 {
+						r.Count("audience_scoped_hits_upstream_other_option_before_subnet", 1)
+					}
+					if mk.OptAfter > 0 {
+						r.Count("audience_scoped_hits_upstream_other_option_after_subnet", 1)
+					}
+					if len(mk.Subnets) > 1 {
+						r.Count("audience_scoped_hits_upstream_several_subnet_options", 1)
+					}
 				case v.Kind == "hit":
 					r.Count("audience_shared_hits", 1)
 					if cs.IsValid() {
